@@ -75,14 +75,29 @@ NONZERO_START_GRIDS = {"N1": np.array([5.0, 20.0, 50.0, 200.0]), "N2": np.array(
 
 
 # ------------------------------------------------------------------------------- specification oracle
-def poisson_pmf(m, lam):
-    """Poisson(m; lam) = exp(-lam) lam^m / m!  (0^0 = 1), vectorised over lam."""
+def log_poisson(m, lam):
+    """log Poisson(m; lam) = m log(lam) - lam - log(m!), vectorised over lam >= 0 (lam = 0: 0 if m = 0 else -inf)."""
     lam = np.asarray(lam, dtype=float)
-    return np.exp(-lam) * np.power(lam, m) / math.factorial(m)
+    out = np.empty_like(lam)
+    pos = lam > 0
+    out[pos] = m * np.log(lam[pos]) - lam[pos] - math.lgamma(m + 1)
+    out[~pos] = 0.0 if m == 0 else -np.inf
+    return out
+
+
+def log_sum_exp(a, axis=None):
+    """log(sum(exp(a))) over `axis` (all axes if None), shifted by the maximum; all -inf gives -inf."""
+    mx = np.max(a, axis=axis, keepdims=True)
+    mx = np.where(np.isfinite(mx), mx, 0.0)
+    with np.errstate(divide="ignore"):
+        out = np.log(np.sum(np.exp(a - mx), axis=axis, keepdims=True)) + mx
+    if axis is None:
+        return float(out.ravel()[0])
+    return np.squeeze(out, axis=axis)
 
 
 def tree_structure(ts):
-    """(non-sample nodes, [(parent, child, span, mutation count)]) read straight from the tables."""
+    """(samples, non-sample nodes, [(parent, child, span, mutation count)]) read straight from the tables."""
     samples = set(int(s) for s in ts.samples())
     nodes = [u for u in range(ts.num_nodes) if u not in samples]
     muts_on_node = np.bincount(ts.mutations_node, minlength=ts.num_nodes)
@@ -91,41 +106,43 @@ def tree_structure(ts):
 
 
 def exact_model(ts, prior_rows, t, mu, eps, sample_time=None):
-    """Dense enumeration of all assignments.  Returns (Z, {u: marginal row})."""
+    """Dense enumeration of ALL assignments (one tensor cell per assignment, log weights so that no assignment
+    underflows).  Returns (log Z, {u: marginal row})."""
     samples, nodes, edges = tree_structure(ts)
     K = len(t)
     axis = {u: a for a, u in enumerate(nodes)}
     n = len(nodes)
-    W = np.ones((K,) * n)
+    logW = np.zeros((K,) * n)
 
     def along(vec, a):
         shp = [1] * n
         shp[a] = K
         return np.reshape(vec, shp)
 
-    for u in nodes:
-        W = W * along(np.asarray(prior_rows[u], dtype=float), axis[u])
+    with np.errstate(divide="ignore"):
+        for u in nodes:
+            logW = logW + along(np.log(np.asarray(prior_rows[u], dtype=float)), axis[u])
     t0 = t[0] if sample_time is None else sample_time
     for p, c, span, m in edges:
         if c in samples:
-            W = W * along(poisson_pmf(m, (t - t0 + eps) * mu * span), axis[p])
+            logW = logW + along(log_poisson(m, (t - t0 + eps) * mu * span), axis[p])
         else:
             dt = t[:, None] - t[None, :]                      # [i_p, i_c]
-            M = np.where(np.arange(K)[:, None] >= np.arange(K)[None, :],
-                         poisson_pmf(m, (np.maximum(dt, 0.0) + eps) * mu * span), 0.0)
+            allowed = np.arange(K)[:, None] >= np.arange(K)[None, :]
+            M = np.where(allowed, log_poisson(m, (np.maximum(dt, 0.0) + eps) * mu * span), -np.inf)
             shp = [1] * n
             shp[axis[p]] = K
             shp[axis[c]] = K
-            if axis[p] < axis[c]:
-                W = W * np.reshape(M, shp)
-            else:
-                W = W * np.reshape(M.T, shp)
-    Z = float(W.sum())
+            logW = logW + np.reshape(M if axis[p] < axis[c] else M.T, shp)
+    logZ = log_sum_exp(logW)
     marg = {}
     for u in nodes:
         other = tuple(a for a in range(n) if a != axis[u])
-        marg[u] = W.sum(axis=other) / Z if Z > 0 else np.full(K, np.nan)
-    return Z, marg
+        if np.isfinite(logZ):
+            marg[u] = np.exp((log_sum_exp(logW, axis=other) if other else logW) - logZ)
+        else:
+            marg[u] = np.full(K, np.nan)
+    return logZ, marg
 
 
 def exact_model_mp(ts, prior_rows, t, mu, eps):
@@ -189,7 +206,7 @@ def make_prior(ts, grid, kind, rng):
         warnings.simplefilter("ignore")
         base = tsdate.build_prior_grid(ts, population_size=100, timepoints=grid,
                                        prior_distribution="gamma" if kind == "gamma" else "lognorm")
-    if kind != "synthetic":
+    if kind in ("lognorm", "gamma"):
         return base
     t = np.array(base.timepoints, dtype=float)
     pr = NodeTimeValues(ts.num_nodes, np.array(base.nonfixed_nodes), t)
@@ -199,6 +216,10 @@ def make_prior(ts, grid, kind, rng):
         if K > 2:                           # one exact zero somewhere except at the oldest timepoint
             row[int(rng.integers(0, K - 1))] = 0.0
         pr[u] = row
+    if kind == "synthetic-pointmass0":      # the youngest non-sample node can only sit at the first timepoint
+        row = np.zeros(K)
+        row[0] = 0.7
+        pr[int(base.nonfixed_nodes[0])] = row
     return pr
 
 
@@ -220,35 +241,59 @@ def rows_close(obs, exp):
     return bool(np.all(np.abs(obs - exp) <= RTOL * np.abs(exp) + ATOL_SUBNORMAL))
 
 
+KNOWN_NONZERO_START = "known-first-timepoint-above-zero-sample-edges-measured-from-first-timepoint"
+KNOWN_MASS_AT_FIRST = "known-node-posterior-entirely-at-first-timepoint-gives-nan"
+
+
+def lik_close(lik, logZ, space):
+    if not np.isfinite(lik):
+        return False
+    if space == "linear":
+        Z = math.exp(logZ)
+        return abs(lik - Z) <= RTOL * Z
+    return abs(lik - logZ) <= RTOL
+
+
 def run_case(rep, state, shape, pattern_kind, muts, L, mu, grid_name, grid, prior_kind, eps, opts, rng_prior,
-             known_clause=None):
+             samples_at_true_zero=False):
     import tsdate
     ts = inputs.tree_to_ts(shape, sequence_length=L, mutations=muts)
     pr = make_prior(ts, grid, prior_kind, rng_prior)
     t = np.array(pr.timepoints, dtype=float)
     K = len(t)
     rows = prior_rows_of(pr)
-    Z, marg = exact_model(ts, rows, t, mu, eps, sample_time=0.0 if known_clause else None)
+    logZ, marg = exact_model(ts, rows, t, mu, eps, sample_time=0.0 if samples_at_true_zero else None)
     key = f"{shape}|{pattern_kind}:{sorted(muts.items())}|L{L}|mu{mu}|{grid_name}|{prior_kind}|eps{eps}"
     desc = {"shape": shape, "mutations": {str(k): v for k, v in muts.items()}, "sequence_length": L,
             "mutation_rate": mu, "timepoints": t, "prior": prior_kind,
             "prior_rows": {str(u): r for u, r in rows.items()}, "eps": eps, "options": opts}
-    if not (Z > 0):
+    if not np.isfinite(logZ):
         state["skipped_Z0"] += 1            # infeasible model (only with eps = 0): posterior undefined
         return
-    if Z < 1e-250:
-        state["skipped_underflow"] += 1
+    if logZ < math.log(1e-250):
+        state["skipped_underflow"] += 1     # the linear-space normalising constant itself would underflow
         return
     state["cases"] += 1
-    if known_clause is None and state["cases"] % SELFCHECK_EVERY == 1 and K ** len(rows) <= 20000:
+    if not samples_at_true_zero and state["cases"] % SELFCHECK_EVERY == 1 and K ** len(rows) <= 20000:
         Zmp, margmp = exact_model_mp(ts, rows, t, mu, eps)
+        Z = math.exp(logZ)
         if abs(float(Zmp) - Z) > 1e-11 * Z or any(
-                abs(float(a) - b) > 1e-11 * abs(float(a)) + 1e-290 for u in marg for a, b in zip(margmp[u], marg[u])):
+                abs(float(a) - b) > 1e-11 * abs(float(a)) + 1e-300 for u in marg for a, b in zip(margmp[u], marg[u])):
             raise RuntimeError(f"oracle self-check failed on {key}")
         state["selfchecks"] += 1
-    nontrivial = any(np.nanmax(marg[u]) < 1 - 1e-12 for u in marg)
+    nontrivial = any(np.max(marg[u]) < 1 - 1e-12 for u in marg)
+    # the isolated condition: some node's exact marginal has no mass at all beyond the first timepoint
+    mass_at_first = any(np.max(marg[u][1:]) == 0.0 for u in marg)
     for space in ("linear", "logarithmic"):
         d = dict(desc, probability_space=space)
+        clause_post = f"posterior-equals-exact-marginal[{space}]"
+        clause_lik = f"likelihood-equals-normalising-constant[{space}]"
+        if samples_at_true_zero:
+            clause_post = clause_lik = KNOWN_NONZERO_START
+        elif mass_at_first:
+            clause_post = clause_lik = KNOWN_MASS_AT_FIRST
+        exp_lik = math.exp(logZ) if space == "linear" else logZ
+        exp_all = {"likelihood": exp_lik, "posterior": {str(u): marg[u] for u in marg}}
         try:
             with warnings.catch_warnings():
                 warnings.simplefilter("ignore")
@@ -257,40 +302,34 @@ def run_case(rep, state, shape, pattern_kind, muts, L, mu, grid_name, grid, prio
                     outside_standardize=opts["outside_standardize"], cache_inside=opts["cache_inside"],
                     return_fit=True, return_likelihood=True)
             post = posterior_matrix(fit, K)
-        except Exception as e:   # a crash on a feasible model is a violation of both clauses
+        except Exception as e:   # a crash on a feasible model violates both clauses
             err = f"{type(e).__name__}: {e}"
-            for cl in ("posterior-equals-exact-marginal", "likelihood-equals-normalising-constant"):
-                name = known_clause or f"{cl}[{space}]"
-                rep.case(name, False, key=key, input=d, observed=err, expected="no exception", nontrivial=nontrivial)
+            for cl in sorted({clause_post, clause_lik}):
+                rep.case(cl, False, key=key, input=d, observed=err, expected=exp_all, nontrivial=nontrivial)
             continue
         bad = [u for u in marg if not rows_close(post[u], marg[u])]
         samples_nan = all(np.all(np.isnan(post[int(s)])) for s in ts.samples())
         ok_post = not bad and samples_nan
-        exp_lik = Z if space == "linear" else math.log(Z)
-        ok_lik = bool(np.isfinite(lik)) and (abs(lik - Z) <= RTOL * Z if space == "linear"
-                                            else abs(lik - math.log(Z)) <= RTOL)
-        if known_clause:
+        ok_lik = lik_close(lik, logZ, space)
+        obs_all = {"likelihood": lik, "posterior": {str(u): post[u] for u in marg}}
+        if samples_at_true_zero:
             # for the report: does the run instead agree with the model whose samples sit at t[0]?
-            Z1, marg1 = exact_model(ts, rows, t, mu, eps)
-            alt = all(rows_close(post[u], marg1[u]) for u in marg1) and (
-                abs(lik - Z1) <= RTOL * Z1 if space == "linear" else abs(lik - math.log(Z1)) <= RTOL)
-            rep.case(known_clause, ok_post and ok_lik, key=key, input=d,
-                     observed={"likelihood": lik, "posterior": {str(u): post[u] for u in marg},
-                               "equals_model_with_samples_at_first_timepoint": bool(alt)},
-                     expected={"likelihood": exp_lik, "posterior": {str(u): marg[u] for u in marg}},
+            logZ1, marg1 = exact_model(ts, rows, t, mu, eps)
+            obs_all["equals_model_with_samples_at_first_timepoint"] = bool(
+                all(rows_close(post[u], marg1[u]) for u in marg1) and lik_close(lik, logZ1, space))
+        if clause_post == clause_lik:
+            rep.case(clause_post, ok_post and ok_lik, key=key, input=d, observed=obs_all, expected=exp_all,
                      nontrivial=nontrivial)
             continue
-        rep.case(f"posterior-equals-exact-marginal[{space}]", ok_post, key=key, input=d,
+        rep.case(clause_post, ok_post, key=key, input=d,
                  observed={str(u): post[u] for u in (bad or list(marg)[:1])},
                  expected={str(u): marg[u] for u in (bad or list(marg)[:1])}, nontrivial=nontrivial)
-        rep.case(f"likelihood-equals-normalising-constant[{space}]", ok_lik, key=key, input=d,
-                 observed=lik, expected=exp_lik, nontrivial=nontrivial)
+        rep.case(clause_lik, ok_lik, key=key, input=d, observed=lik, expected=exp_lik, nontrivial=nontrivial)
         if ok_post:      # record the largest relative error among the normal-range entries (reported in notes)
             for u in marg:
                 big = marg[u] > 1e-200
-                if np.any(big):
-                    err = float(np.max(np.abs(post[u][big] - marg[u][big]) / marg[u][big]))
-                    state["max_rel_err"] = max(state["max_rel_err"], err)
+                err = float(np.max(np.abs(post[u][big] - marg[u][big]) / marg[u][big]))
+                state["max_rel_err"] = max(state["max_rel_err"], err)
 
 
 def run(req, rep):
@@ -305,18 +344,17 @@ def run(req, rep):
         trees += [five[i] for i in sorted(rng.choice(len(five), size=30, replace=False))]
     pattern_kinds = ["zeros", "ones", "mixed", "sparse"] if thorough else ["ones", "mixed", "sparse"]
     combos = [(g, p) for g in GRIDS for p in PRIOR_KINDS]
-    eps_cycle = [1e-8, 1e-8, 1e-2, 0.0]
-    rate_cycle = [(10.0, 1e-3), (3.5, 4e-3)]
-    opt_cycle = [{"outside_standardize": a, "cache_inside": b} for a in (True, False) for b in (False, True)]
+    eps_choices = [1e-8, 1e-8, 1e-2, 0.0]
+    rate_choices = [(10.0, 1e-3), (3.5, 4e-3)]
+    opt_choices = [{"outside_standardize": a, "cache_inside": b} for a in (True, False) for b in (False, True)]
     rep.space = ("single-tree inputs: rooted leaf-labelled trees (binary + polytomies) x per-edge mutation-count "
                  "patterns x 5 time grids x 3 prior kinds (lognorm, gamma, synthetic with zeros) x {linear, "
-                 "logarithmic} x rotating eps/outside_standardize/cache_inside/(sequence_length, mutation_rate)")
+                 "logarithmic} x seeded eps/outside_standardize/cache_inside/(sequence_length, mutation_rate)")
     rep.bound = (f"{len(trees)} trees ({'all with 2-5 leaves' if thorough else 'all with 2-4 leaves + 30 seeded 5-leaf'}"
                  f"), {len(pattern_kinds)} mutation patterns per tree (counts <= 6), grids of 2-10 points, "
                  f"{'all 15' if thorough else '5 rotating'} (grid, prior) combinations per pattern")
     rep.exhaustive = bool(thorough)
     state = {"cases": 0, "selfchecks": 0, "skipped_Z0": 0, "skipped_underflow": 0, "max_rel_err": 0.0}
-    counter = 0
     for ti, shape in enumerate(trees):
         plain = inputs.tree_to_ts(shape)
         for pi, kind in enumerate(pattern_kinds):
@@ -326,24 +364,29 @@ def run(req, rep):
             else:
                 chosen = [combos[(ti * 7 + pi * 4 + j * 8) % len(combos)] for j in range(5)]
             for g, p in chosen:
-                counter += 1
-                L, mu = rate_cycle[counter % 2]
-                eps = eps_cycle[(counter // 2) % 4]
-                opts = opt_cycle[(counter // 3) % 4]
+                L, mu = rate_choices[int(rng.integers(2))]
+                eps = eps_choices[int(rng.integers(4))]
+                opts = opt_choices[int(rng.integers(4))]
                 run_case(rep, state, shape, kind, muts, L, mu, g, GRIDS[g], p, eps, opts, rng)
-    # grids that do not start at time 0, judged against the model with samples at their true time 0
+    small = trees[:31] if thorough else trees[:8]
+    # (1) a prior that pins the youngest internal node to the first timepoint (default eps): lands in KNOWN_MASS_AT_FIRST
+    for si, shape in enumerate(small):
+        plain = inputs.tree_to_ts(shape)
+        muts = mutation_pattern("zeros" if si % 2 else "sparse", plain, rng)
+        run_case(rep, state, shape, "pinned", muts, 10.0, 1e-3, "A", GRIDS["A"], "synthetic-pointmass0", 1e-8,
+                 opt_choices[si % 4], rng)
+    # (2) grids that do not start at time 0, judged against the model with the samples at their true time 0
     for gi, (g, grid) in enumerate(NONZERO_START_GRIDS.items()):
-        for si, shape in enumerate(trees[:8] if not thorough else trees[:31]):
+        for si, shape in enumerate(small):
             plain = inputs.tree_to_ts(shape)
             muts = mutation_pattern("ones", plain, rng)
             run_case(rep, state, shape, "ones", muts, 10.0, 1e-3, g, grid, ("lognorm", "synthetic")[(gi + si) % 2],
-                     1e-8, opt_cycle[0], rng,
-                     known_clause="known-first-timepoint-above-zero-sample-edges-measured-from-first-timepoint")
+                     1e-8, opt_choices[0], rng, samples_at_true_zero=True)
     rep.notes.append(f"{state['cases']} feasible inputs, each run in both probability spaces; "
                      f"{state['selfchecks']} oracle self-checks against 40-digit assignment-by-assignment "
-                     f"enumeration; skipped: {state['skipped_Z0']} infeasible (Z = 0, eps = 0), "
+                     f"enumeration; skipped: {state['skipped_Z0']} infeasible (Z = 0, only with eps = 0), "
                      f"{state['skipped_underflow']} with Z < 1e-250; "
-                     f"largest relative posterior error seen {state['max_rel_err']:.2e}")
+                     f"largest relative posterior error seen in passing rows {state['max_rel_err']:.2e}")
 
 
 if __name__ == "__main__":
